@@ -80,6 +80,18 @@ func Try(f func()) (kind string, val any) {
 // WF checks well-formedness: common attribute length, indices in range, index count fits the
 // topology, and that walking every primitive through the accessors raises no runtime error.
 func WF(m modeling.Mesh) error {
+	if err := WFStatic(m); err != nil {
+		return err
+	}
+	// walk the accessors
+	if kind, val := Try(func() { Walk(m) }); kind == "crash" {
+		return fmt.Errorf("walking the primitives crashed: %v", val)
+	}
+	return nil
+}
+
+// WFStatic is the structural half of WF (no accessor walk).
+func WFStatic(m modeling.Mesh) error {
 	n, err := AttrLen(m)
 	if err != nil {
 		return err
@@ -103,10 +115,6 @@ func WF(m modeling.Mesh) error {
 		if idx.Len()%2 != 0 {
 			return fmt.Errorf("line mesh with %d indices", idx.Len())
 		}
-	}
-	// walk the accessors
-	if kind, val := Try(func() { Walk(m) }); kind == "crash" {
-		return fmt.Errorf("walking the primitives crashed: %v", val)
 	}
 	return nil
 }
